@@ -105,8 +105,11 @@ func ruleC12Methods(p *Prog, a *Anchors, r *Report) {
 // block". What a node keeps for the whole rendering (the node state shared by every context of the rendering) outlives
 // every scope: a function value or record stored there must not hold on to one scope's ExecutionContext — it would go
 // on running in a scope that has ended (the first pass of a loop, the first call of a macro).
-func ruleC12StateScope(p *Prog, a *Anchors, r *Report) {
-	r.Begin("R-C12-STATESCOPE", "nothing kept in the per-rendering node state refers to a scope's ExecutionContext (no closure over ctx, no record holding one)", 2)
+func ruleC12StateScope(p *Prog, a *Anchors, r *Report) { ruleStateScope(p, a, r, "R-C12-STATESCOPE") }
+
+// ruleStateScope: shared with C13 (an imported or local macro bound again in another scope runs in that scope).
+func ruleStateScope(p *Prog, a *Anchors, r *Report, rule string) {
+	r.Begin(rule, "nothing kept in the per-rendering node state refers to a scope's ExecutionContext (no closure over ctx, no record holding one)", 2)
 	// the rendering-wide table: a map field of ExecutionContext keyed by INode
 	st := a.ExecCtx.Underlying().(*types.Struct)
 	field := ""
@@ -164,6 +167,37 @@ func ruleC12StateScope(p *Prog, a *Anchors, r *Report) {
 			}
 			r.OK(key, p.InstrPos(at), "the function value kept captures no execution context")
 		default:
+			// a table of function values (name → function): what is put into it
+			if c12HoldsFuncs(v.Type()) {
+				for _, fn := range withClosures(topLevel(at.Parent())) {
+					for _, b := range fn.Blocks {
+						for _, in := range b.Instrs {
+							mu, isMU := in.(*ssa.MapUpdate)
+							if !isMU || !types.Identical(mu.Map.Type(), v.Type()) {
+								continue
+							}
+							val := mu.Value
+							if mi, isMI := val.(*ssa.MakeInterface); isMI {
+								val = mi.X
+							}
+							if mc, isMC := val.(*ssa.MakeClosure); isMC {
+								for _, bnd := range mc.Bindings {
+									T := bnd.Type()
+									if pt, isP := T.(*types.Pointer); isP {
+										if _, isAlloc := bnd.(*ssa.Alloc); isAlloc {
+											T = pt.Elem()
+										}
+									}
+									if holdsCtx(T) {
+										r.Bad(key, p.InstrPos(in), "a table of function values kept for the whole rendering is filled with functions that captured the execution context of the scope they were made in: bound again later (another pass of a loop, another call of a macro, an included template) they still run in that first scope")
+										return
+									}
+								}
+							}
+						}
+					}
+				}
+			}
 			if holdsCtx(v.Type()) {
 				r.Bad(key, p.InstrPos(at), "a value of type %s, which holds an execution context, is kept for the whole rendering: it outlives the scope it was made in", types.TypeString(v.Type(), types.RelativeTo(a.ExecCtx.Obj().Pkg())))
 				return
@@ -185,4 +219,19 @@ func ruleC12StateScope(p *Prog, a *Anchors, r *Report) {
 	if n == 0 {
 		r.Unk("none", "-", "no store into ExecutionContext.%s found", field)
 	}
+}
+
+// c12HoldsFuncs: T is a map or slice whose elements are function values (or interfaces, which may hold them).
+func c12HoldsFuncs(T types.Type) bool {
+	var el types.Type
+	switch u := T.Underlying().(type) {
+	case *types.Map:
+		el = u.Elem()
+	case *types.Slice:
+		el = u.Elem()
+	default:
+		return false
+	}
+	_, isSig := el.Underlying().(*types.Signature)
+	return isSig
 }
